@@ -48,7 +48,7 @@ without being numerically equal?  (finding F16: the tolerance comparator of `Ter
 def nearDegenerate (s : Sys) : Bool :=
   (List.range s.E.size).any fun i => (List.range i).any fun j =>
     let d := Float.abs (s.E[i]! - s.E[j]!)
-    d > 1.0e-12 * (1.0 + Float.abs (s.E[i]!)) && d < 3.0e-8
+    d > 3.0e-10 && d < 3.0e-8
 
 /-- a failed check of a two-particle quantity; on spectra with near-degenerate levels it is attributed to the term merging -/
 def failChi (a : Acc) (prop what : String) : IO Acc :=
